@@ -5,7 +5,9 @@ import random
 from harness import core
 from harness.checks import formlib as fl, mplib
 
-NAME_CPS = [97, 98, 59, 61, 32, 92, 233, 0x4E2D, 0x1F600, 46, 45, 47, 58, 44, 39, 40]
+NAME_CPS = [97, 98, 59, 61, 32, 92, 233, 0x4E2D, 0x1F600, 46, 45, 47, 58, 44, 39, 40,
+            # text that is not in a Unicode normal form (decomposed accent, conjoining jamo, singleton mappings): kept as sent
+            0x301, 0x1100, 0x1161, 0x212B, 0x2126]
 
 
 def rand_name(rng):
